@@ -6,6 +6,7 @@ import importlib
 import json
 import os
 import re
+import shutil
 import subprocess
 import sys
 import time
@@ -131,10 +132,13 @@ def run_unit(modname, tier, seed):
         os.makedirs(WORK, exist_ok=True)
         tag = hashlib.sha1(REPO.encode()).hexdigest()[:6]
         ur.g = gen.generate(ur.unit, canary=False, tier=tier)
-        ur.path = os.path.join(WORK, '%s_%s.rs' % (modname, tag))
+        # one directory per process: several checks (different properties sharing a unit) may run at the same time
+        pdir = os.path.join(WORK, 'p%d' % os.getpid())
+        os.makedirs(pdir, exist_ok=True)
+        ur.path = os.path.join(pdir, '%s_%s.rs' % (modname, tag))
         open(ur.path, 'w').write(ur.g.text())
         ur.canary_g = gen.generate(ur.unit, canary=True, tier=tier)
-        cpath = os.path.join(WORK, '%s_%s_canary.rs' % (modname, tag))
+        cpath = os.path.join(pdir, '%s_%s_canary.rs' % (modname, tag))
         open(cpath, 'w').write(ur.canary_g.text())
     except LostAnchor as e:
         ur.undecided.append(('lost-anchor', str(e)))
@@ -402,4 +406,9 @@ def main(argv):
 
 
 if __name__ == '__main__':
-    sys.exit(main(sys.argv))
+    rc_ = 2
+    try:
+        rc_ = main(sys.argv)
+    finally:
+        shutil.rmtree(os.path.join(WORK, 'p%d' % os.getpid()), ignore_errors=True)
+    sys.exit(rc_)
